@@ -428,9 +428,34 @@ def _do(world, st, op):
 
         via = op.get('via', 'from_bytes')
 
+        if isinstance(op.get('cut'), int):
+            # a damaged copy (cut short): usually a failing parse
+            data = data[:op['cut'] % (len(data) + 1)]
+
         if via == 'shared_reader':
+            # one DiffXDOMReader object reused for every parse of this
+            # world, failed ones included: what it returns must not depend
+            # on what it parsed before
+            try:
+                fresh = snap_tree(L.DiffX.from_bytes(data))
+            except Exception:
+                fresh = None
+
             h = SimReadHandle(world, data, 'dom-parse')
-            t = st.shared_reader.parse(h)
+
+            try:
+                t = st.shared_reader.parse(h)
+            except Exception as e:
+                if fresh is not None:
+                    world.violate('C18.shared-reader-differs', 'raises:%s'
+                                  % (type(e).__name__,), {'op': op})
+
+                raise
+
+            if fresh is None or snap_tree(t) != fresh:
+                world.violate('C18.shared-reader-differs',
+                              'accepts' if fresh is None else 'tree',
+                              {'op': op})
         elif via == 'from_stream':
             h = SimReadHandle(world, data, 'dom-parse')
             t = L.DiffX.from_stream(h)
@@ -458,6 +483,34 @@ def _do(world, st, op):
         attrs = copy.deepcopy(pyval(op.get('attrs', {})))
         node.add_file(**attrs)
         return {}
+    elif name == 'list_edit':
+        # the public lists of changes / files edited in place (reordered,
+        # entries dropped): the tree *is* what those lists hold
+        node = resolve(tree, op.get('path', []))
+
+        if node is None:
+            return {'outcome': 'skip', 'skipped': 'no-node'}
+
+        lst = getattr(node, 'changes', None) if not op.get('path') \
+            else getattr(node, 'files', None)
+        how = op.get('how')
+
+        if not isinstance(lst, list) or len(lst) < (2 if how in (
+                'reverse', 'rotate', 'swap') else 1):
+            return {'outcome': 'skip', 'skipped': 'nothing-to-edit'}
+
+        if how == 'reverse':
+            lst.reverse()
+        elif how == 'rotate':
+            lst.append(lst.pop(0))
+        elif how == 'swap':
+            lst[0], lst[-1] = lst[-1], lst[0]
+        elif how == 'del_first':
+            del lst[0]
+        else:
+            lst.pop()
+
+        return {'len': len(lst)}
     elif name == 'set':
         node = resolve(tree, op.get('path', []))
 
